@@ -159,6 +159,14 @@ def real(case):
                         raise AssertionError('accessor %s returned %s' % (a, type(v)))
                 rets.append(vals)
                 outs.append({'acc': a, 'vals': [[int(x) for x in np.asarray(v).reshape(-1)] for v in vals]})
+            elif o['op'] == 'estimate_overwrite':
+                try:
+                    T_, st_ = obj.estimate_markov_model(o['lag'])
+                    np.asarray(T_)[...] = -1.0
+                    st_ += 1000
+                except Exception:  # noqa
+                    pass
+                outs.append(None)
             elif o['op'] == 'write':
                 t = o['target']
                 if 'arg' in t:
